@@ -49,7 +49,7 @@ class Ctx:
 
     # -------------------------------------------------------------------------------------------
     def job(self, name, gens, invariants, ops=None, cfg=None, cli=False, fmt_hooks=False, extra_files=None,
-            nontrivial=None, trace_module="Trace", validate_timeout=1500, sample_filter=None, conform=False, shards=None):
+            nontrivial=None, trace_module="Trace", validate_timeout=1500, sample_filter=None, conform=False, shards=None, env=None):
         """gens: list of dict(base=<generator module>, consts={..}, emit=<invariant name>, [simulate=(num, depth)],
                               [constraint=<name>])  or dict(file=<ndjson path of ready-made behaviours>)
                  or dict(rust=[args for `chk gen`])"""
@@ -123,7 +123,9 @@ class Ctx:
         if nbeh == 0:
             raise ToolError("job %s generated no behaviours" % name)
         trace = os.path.join(d, "trace.ndjson")
-        hsecs = run_harness(beh, trace, cli=cli, fmt_hooks=fmt_hooks)
+        hsecs = run_harness(beh, trace, cli=cli, fmt_hooks=fmt_hooks, env=env)
+        if env:
+            jobrec["process_env"] = env
         jobrec["behaviours"] = nbeh
         jobrec["harness_secs"] = round(hsecs, 1)
         # non-triviality and samples are measured on the recorded trace
